@@ -9,6 +9,9 @@ CLAIMED = {
  "C27": ("§2 C27", "SSA provenance (ownership) analysis: backward origin walk through phi/slice/append/field/extract with reaching stores for local structs, captured-variable cells, return summaries and writes-through summaries to a fixpoint; AST checks of the overlay direction",
   "Decides that no code path of interp/expand/internal writes through variable storage it shares with another shell: every element store, map update, delete, clear, copy, in-place slices/sort call and append on a variable's list, indexes or map, or on the positional parameters, must act on storage created in the same activation; handing such storage to a callee that stores through its parameter is judged at the call site. Also that subshell() gives the copy fresh maps/slices/environment except a named table of fields shared by design, that background copies copy every variable, and that overlays write to their parent only in function scope. The analysis found the in-place array append on the pinned tree (repaired by a fix: commit). Runs on six build configurations in the thorough tier.",
   "Sound relative to: no reflection/unsafe in these packages (checked); storage returned by Environ.Get/lookupVar/Resolve or received as a parameter is treated as shared, clones/makes/literals as owned; stdlib aliasing and mutating helpers come from an explicit table. Does not decide isolation of cd/options/traps beyond by-value copies."),
+ "C30": ("§2 C30", "field-write classification of interp.Runner over the type-checked AST (configuration / first-reset block / Reset / runtime), key-by-key analysis of Reset's Runner literal against that classification, must-pass-through for the emptied-after idiom and for didReset, dominance of the !didReset guard and of fillExpandConfig in Run, must-pass-through of updateExpandOpts after every runtime option-table write",
+  "Decides the Reset half structurally and one clause of the incremental half. Reset: every field stored by an option closure or by New is carried over by Reset's literal — from itself when only configuration code writes it, from its first-reset snapshot when builtins can overwrite it — or is consumed in the first-reset block; no literal key carries a field the running program can write unless it is emptied on every path afterwards; snapshots are taken only in the first-reset block and carried unchanged; didReset is set on every path. Incremental: Run resets only a never-reset Runner and refreshes the expansion options first, and every runtime write to the option table reaches updateExpandOpts on every path to the function exit (this rule found `shopt -s nullglob bogus` / `set -f -Z` leaving the rest of the Run on stale options: repaired by a fix: commit). A dropped handler, a leaked Funcs/alias/trap field or a missed refresh is one failing obligation whatever the history.",
+  "Does not decide value-level equality of a reset Runner with a new one, nor the incremental clause beyond option refresh (EXIT trap, exit inside functions). Two reasoned exceptions (sourceSetParams, dirStack), one line each."),
  "C32": ("§2 C32", "SSA receiver-provenance of every Runner used inside a spawned function (go statements and WaitGroup.Go, enumerated) back to subshell(true) in the spawning function; fixpoint summary of the Runner fields each method may store; CFG ordering of exit-status store, close(done) and receive; the C27 storage-ownership rules reused",
   "Decides that everything the interpreter runs on another goroutine runs on a deep copy: inside each spawned function every Runner that is stored to (directly or through a method whose summary stores Runner fields) comes from subshell(true) of the spawning function and the parent Runner is only read; that a background job's exit status is stored before its done channel is closed and read only after receiving from it; and (shared with C27) that no copy writes through list/map storage it shares with the parent. A goroutine started on the parent or on subshell(false), or a status read without the receive, is one failing obligation regardless of schedule. Runs on six build configurations in the thorough tier.",
   "Explores no interleavings. Loads of parent fields from spawned functions (error reporting via the parent's stderr on FIFO failures) are listed in the evidence as observed, not decided. User-supplied handlers and writers are outside the analysis. Assumes go statements and WaitGroup.Go are the only goroutine starts in package interp (enumerated, with a floor)."),
